@@ -101,6 +101,28 @@ def step (_ : Unit) (line : String) : Unit × Option String :=
         else if ok ≠ "1" then ((), some "argument decoder refused an all-zero message")
         else ((), none)
     | _, _, _ => ((), some "bad disp line")
+  | ["dispt", prog, vers, proc, bytes, name, ok] =>
+    -- a (possibly truncated) argument message delivered to the registered handler: the handler is
+    -- reached exactly when the RFC decoder accepts the message (`truncated_rejected`: a proper
+    -- prefix of an encoding never decodes)
+    match prog.toNat?, vers.toNat?, proc.toNat?, hexBytes bytes with
+    | some p, some v, some n, some bs =>
+      match GoNfsd.Spec.Rfc1813.procs.find? fun e => e.1 = p && e.2.1 = v && e.2.2.1 = n with
+      | none => ((), some "procedure is not in the RFC table")
+      | some e =>
+        match GoNfsd.Spec.Rfc1813.types.lookup e.2.2.2.2.1 with
+        | none => ((), some s!"argument type {e.2.2.2.2.1} is not in the RFC table")
+        | some ty =>
+          match dec ty bs with
+          | none =>
+            if name ≠ "-" then ((), some s!"the handler {name} was reached with arguments the RFC decoder refuses (message cut short or malformed)")
+            else if ok ≠ "0" then ((), some "a message the RFC decoder refuses was reported as decoded")
+            else ((), none)
+          | some _ =>
+            if name ≠ e.2.2.2.1 then ((), some s!"a well-formed message reached {name}, RFC says {e.2.2.2.1}")
+            else if ok ≠ "1" then ((), some "a well-formed message was refused")
+            else ((), none)
+    | _, _, _, _ => ((), some "bad dispt line")
   | _ => ((), some "unknown command")
 
 def main : IO UInt32 := runLines () step
